@@ -250,6 +250,9 @@ def stream_items(tier, seed, want):
                 for g2 in gen.insert_at_nodes(g, w):
                     add(g2, inp01)
     if 'ek' in want:
+        for g in gen.unwrap_family():
+            for ek in ('empty', 'cheap', 'rich'):
+                add(g, inputs_all(3, [gen.A, gen.B]), ek=ek, prio=True, must=True)
         pool = base[:300] + [g2 for g in base[300:420] for w in gen.RECOVERIES + gen.DECORATIONS[2:] for g2 in gen.insert_at_nodes(g, w)[:3]]
         for g in pool:
             for ek in ('simple', 'cheap', 'empty'):
@@ -873,12 +876,16 @@ class C17(Prop):
         for w in gen.DECORATIONS:
             for i_ in inner:
                 for f_ in further:
-                    for d in [('or', w(i_), f_), ('or', f_, w(i_)), ('choices', [w(i_), f_, ('just', [gen.EA])]),
-                              ('then', ('ornot', w(i_)), f_), ('or', w(('label', 1, True, i_)), f_),
-                              ('then', ('collect', 'vec', ('rep', w(i_), 0, None)), f_)]:
+                    for j, d in enumerate([('or', w(i_), f_), ('or', f_, w(i_)), ('choices', [w(i_), f_, ('just', [gen.EA])]),
+                                           ('then', ('ornot', w(i_)), f_), ('or', w(('label', 1, True, i_)), f_),
+                                           ('then', ('collect', 'vec', ('rep', w(i_), 0, None)), f_)]):
                         kind = 'str' if n % 2 == 0 else 'slice'
                         lines.append(case_line(f'd{n}p', d, inp, kind=kind))
                         lines.append(case_line(f'd{n}c', erase_deco(d), inp, kind=kind))
+                        if j < 4 and w(i_)[0] == 'label' and w(i_)[2]:
+                            # the labelled parser starts at offset 0 in these shapes: run it alone (followed by "the rest") to
+                            # learn whether and where IT fails — a context may only describe a failure inside the labelled parser
+                            lines.append(case_line(f'd{n}x', ('lazy', i_), inp, kind=kind))
                         n += 1
         return lines
 
@@ -919,6 +926,20 @@ class C17(Prop):
                             pred = False
                             why = (f'context {c} attached to an error at {pe["start"]}..{pe["end"]}: the context span does not run from the '
                                    f'labelled parser\'s start to this failure (stale context of an abandoned alternative?)')
+            # … and it may only be attached to an error that stems from a failure INSIDE the labelled parser: in the shapes where
+            # that parser starts at offset 0 it is also run alone; a context on the final error requires that the parser alone
+            # fails, at the very position of that error
+            ix = impl.get(cid[:-1] + 'x.' + k, {}).get('M')
+            if pred and ix is not None and a['kind'] == 'R' and a['errs']:
+                x = parse_M(ix)
+                pe = parse_err(a['errs'][-1])
+                if pe and pe['ctx'] and x['kind'] == 'R':
+                    px = parse_err(x['errs'][-1]) if x['errs'] else None
+                    if x.get('out') is not None or px is None or px['start'] != pe['start']:
+                        pred = False
+                        why = (f'context {pe["ctx"]} on the error at {pe["start"]}..{pe["end"]}, but the labelled parser run alone '
+                               + ('succeeds' if x.get('out') is not None else f'fails at {px["start"] if px else "?"}')
+                               + ': the context was attached to a failure that did not happen inside the labelled parser')
             corr = (ip == mp) and (ic == mc)
             oc = a['kind'] + ('+' if a.get('out') is not None else '-')
             stats['outcomes'][oc] = stats['outcomes'].get(oc, 0) + 1
@@ -927,7 +948,9 @@ class C17(Prop):
             if not pred:
                 stats['pred_fail'] += 1
                 if True:
-                    self.fail(stats, fails, 'pred', line, int(k), f'{why} || decorated: {ip} || plain: {ic}')
+                    xl = by_id.get(cid[:-1] + 'x')
+                    self.fail(stats, fails, 'pred', [(line, int(k)), (by_id.get(cid_c), int(k))] + ([(xl, int(k))] if xl else []), int(k),
+                              f'{why} || decorated: {ip} || plain: {ic}')
             elif not corr:
                 stats['corr_disagree'] += 1
                 if True:
@@ -962,8 +985,10 @@ class C20(Prop):
     def cases(self, tier, seed):
         rng = random.Random(seed)
         items = stream_items(tier, seed, ['c01', 'c02', 'emit', 'rec', 'deco', 'ctx', 'state', 'ek'])
+        must = [it for it in items if it[2].get('must')]
+        items = [it for it in items if not it[2].get('must')]
         rng.shuffle(items)
-        items = items[:9000 if tier == 'quick' else 60000]
+        items = must + items[:9000 if tier == 'quick' else 60000]
         lines = []
         pool = [0x61, 0x62, 0xe9, 0x301, 0x1D11E, 0x10FFFF, 0xD7FF, 0xE000, 0x0, 0x200D, 0xFEFF, 0x1F600, 0x20, 0x0A, 0x0D, 0x2C, gen.THAI] + gen.UTF8_EDGES
         for n, (g, inputs, kw) in enumerate(items):
@@ -1830,8 +1855,13 @@ class C19(Prop):
                     for lo, hi in ((0, '-'), (0, 1), (0, 2), (2, '-'), (3, 3), (1, 7), (4, 4), (0, 0)):
                         lines.append(f'DR q{n} ce {N} {boxed} {mode} {lo} {hi} I {inp}')
                         n += 1
+                        # the same with a ZERO-SIZED item type that has a destructor (cz / gz)
+                        lines.append(f'DR q{n} cz {N} {boxed} {mode} {lo} {hi} I {inp}')
+                        n += 1
             for mode in ('parse', 'check'):
                 lines.append(f'DR q{n} ga {N} 0 {mode} 0 - I {inp}')
+                n += 1
+                lines.append(f'DR q{n} gz {N} 0 {mode} 0 - I {inp}')
                 n += 1
         tinp = inputs_all(maxlen, [gen.A, gen.B, 99])
         for stream in (0, 1):
